@@ -39,8 +39,9 @@ Print Assumptions C05_forward_content.
 
 (* The positive direction (every accepted line over the C06 field domain with a positive
    decimal pid does write and forward) is C06's field theorem for accepted-password lines
-   (Props/C06.v); for public-key / certificate lines it is covered by the correspondence and
-   the oracle only (C06, loginRE _partial). *)
+   (Props/C06.v); for public-key / certificate lines it is C06_accepted_key / C06_accepted_cert
+   (key ids with spaces, parentheses, "serial"; the one hypothesis on the key id, no_ssh_frag, is
+   necessary: see there). *)
 
 Example C05_example :
   let c := {| c_node := s2l "n"; c_mid := s2l "m" |} in
